@@ -4,6 +4,7 @@
 -/
 import Lean.Data.Json
 import DDV.Gen.Pipeline
+import DDV.Gen.EnumSem
 
 namespace DDV.Gen
 open Lean (Json)
@@ -133,12 +134,24 @@ def enumJson (e : LEnum) : Json :=
         Json.mkObj [("variant", jstr v.name),
           ("number", if v.catchAll then Json.null else jint v.number), ("cfg", jcfg v.cfg)]).toArray)]
 
+/-- The conversion functions of `DDV.Gen.EnumSem` tabulated on a few raw values, so that the harness
+    can compare them with the match arms the real generator emitted. -/
+def enumTableJson (e : LEnum) : Json :=
+  let raws : List Int := (List.range 40).map (fun (n : Nat) => (n : Int)) ++ [63, 64, 127, 128, 255, 256, 1000, -1, -2]
+  Json.mkObj [("name", jstr e.name),
+    ("from", Json.arr (raws.map fun r => match e.fromNum r with
+      | .ok v => Json.arr #[jint r, jstr "ok", jstr v.variant, match v.payload with | some p => jint p | none => Json.null]
+      | .error er => Json.arr #[jint r, jstr "err", jint er.source, jstr er.target]).toArray),
+    ("into", Json.arr (e.variants.map fun v =>
+      Json.arr #[jstr v.name, match e.toNum ⟨v.name, some 7⟩ with | some n => jint n | none => Json.null]).toArray)]
+
 def factsOk (n : Names) (l : Lir) : Json :=
   Json.mkObj [("outcome", jstr "ok"),
     ("internal_address_type", jstr (carrierName l.internalSigned l.internalBits)),
     ("blocks", Json.arr (l.blocks.map blockJson).toArray),
     ("field_sets", Json.arr ((l.fieldSets.filter (·.sizeBits > 0)).map (fieldSetJson n)).toArray),
-    ("enums", Json.arr (l.enums.map enumJson).toArray)]
+    ("enums", Json.arr (l.enums.map enumJson).toArray),
+    ("enum_tables", Json.arr (l.enums.map enumTableJson).toArray)]
 
 def factsStop : Stop → Json
   | .error e => Json.mkObj [("outcome", jstr "error"), ("stage", jstr e.stage), ("kind", jstr e.kind),
